@@ -116,6 +116,15 @@ func (s *state) buf(i int) *hbuf {
 	return s.bufs[i]
 }
 
+// splitAt: like splitBang but also reports whether the separator was '@' (detach in the callback body)
+func splitAt(tok string) (string, []int, bool) {
+	if h, d, ok := strings.Cut(tok, "@"); ok {
+		return h, parseDets(d), true
+	}
+	h, d := splitBang(tok)
+	return h, d, false
+}
+
 func splitBang(tok string) (string, []int) {
 	h, d, ok := strings.Cut(tok, "!")
 	if !ok {
@@ -336,7 +345,13 @@ func (s *state) op(ws []string) string {
 	case "V":
 		b := s.buf(atoi(ws[2]))
 		args := trimUndef([]goja.Value{b.obj, s.iarg(ws[3]), s.iarg(ws[4])})
-		o, err := rt.New(rt.Get(kindCtor[ws[1]]), args...)
+		var o *goja.Object
+		var err error
+		if len(ws) > 5 {
+			o, err = s.constructWithNewTarget(rt.Get(kindCtor[ws[1]]), args, parseDets(strings.TrimPrefix(ws[5], "^")))
+		} else {
+			o, err = rt.New(rt.Get(kindCtor[ws[1]]), args...)
+		}
 		if err != nil {
 			return s.errName(err)
 		}
@@ -346,7 +361,13 @@ func (s *state) op(ws []string) string {
 	case "D":
 		b := s.buf(atoi(ws[1]))
 		args := trimUndef([]goja.Value{b.obj, s.iarg(ws[2]), s.iarg(ws[3])})
-		o, err := rt.New(rt.Get("DataView"), args...)
+		var o *goja.Object
+		var err error
+		if len(ws) > 4 {
+			o, err = s.constructWithNewTarget(rt.Get("DataView"), args, parseDets(strings.TrimPrefix(ws[4], "^")))
+		} else {
+			o, err = rt.New(rt.Get("DataView"), args...)
+		}
 		if err != nil {
 			return s.errName(err)
 		}
@@ -464,8 +485,205 @@ func (s *state) op(ws []string) string {
 		return "ok"
 	case "m":
 		return s.other(ws)
+	case "R", "T", "w", "t", "M":
+		return s.freshOp(ws)
+	case "O":
+		return s.ofFrom(ws)
+	case "A":
+		b := s.buf(atoi(ws[1]))
+		args := trimUndef([]goja.Value{s.iarg(ws[2]), s.iarg(ws[3])})
+		res, err := s.call(b.obj.(*goja.Object), "slice", args...)
+		if err != nil {
+			return s.errName(err)
+		}
+		ab, ok := res.Export().(goja.ArrayBuffer)
+		if !ok {
+			panic("slice did not return an ArrayBuffer")
+		}
+		out := fmt.Sprintf("view 0 %d", len(ab.Bytes()))
+		s.bufs = append(s.bufs, &hbuf{mem: ab.Bytes(), ab: ab, obj: res})
+		return out
 	}
 	panic("unknown op " + ws[0])
+}
+
+// constructWithNewTarget: Reflect.construct(ctor, args, NT) where NT.prototype is a getter that detaches `dets`
+// and then answers ctor.prototype (getPrototypeFromCtor callback point)
+func (s *state) constructWithNewTarget(ctor goja.Value, args []goja.Value, dets []int) (*goja.Object, error) {
+	rt := s.rt
+	mk, err := rt.RunString(`(function(getter){ var f = (function(){}).bind(null); Object.defineProperty(f, "prototype", {get: getter}); return f })`)
+	if err != nil {
+		panic(err)
+	}
+	mkf, _ := goja.AssertFunction(mk)
+	getter := rt.ToValue(func(goja.FunctionCall) goja.Value {
+		for _, d := range dets {
+			s.detach(d)
+		}
+		return ctor.(*goja.Object).Get("prototype")
+	})
+	nt, err := mkf(goja.Undefined(), getter)
+	if err != nil {
+		panic(err)
+	}
+	anyArgs := make([]interface{}, len(args))
+	for i, a := range args {
+		anyArgs[i] = a
+	}
+	rc, _ := goja.AssertFunction(rt.Get("Reflect").(*goja.Object).Get("construct"))
+	res, err := rc(goja.Undefined(), ctor, rt.NewArray(anyArgs...), nt)
+	if err != nil {
+		return nil, err
+	}
+	return res.(*goja.Object), nil
+}
+
+// cbValue: what a callback returns for a value token: `x…@b` detaches now and returns the primitive,
+// `x…!b` returns an object whose valueOf detaches, no token (index beyond the list) → undefined
+func (s *state) cbValue(toks []string, k int) goja.Value {
+	if k >= len(toks) {
+		return goja.Undefined()
+	}
+	h, dets, inBody := splitAt(toks[k])
+	if inBody {
+		for _, d := range dets {
+			s.detach(d)
+		}
+		return s.varg(h)
+	}
+	return s.varg(toks[k])
+}
+
+// freshOp: methods whose result is a typed array that is compared with the model (toReversed, toSorted, with, filter, map)
+func (s *state) freshOp(ws []string) string {
+	rt := s.rt
+	vi, _ := strconv.Atoi(ws[1])
+	v := s.view(vi)
+	var res goja.Value
+	var err error
+	switch ws[0] {
+	case "R":
+		res, err = s.call(v, "toReversed")
+	case "T":
+		var args []goja.Value
+		if ws[2] != "_" {
+			_, dets := splitBang(ws[2])
+			first := true
+			args = append(args, rt.ToValue(func(c goja.FunctionCall) goja.Value {
+				if first {
+					first = false
+					for _, d := range dets {
+						s.detach(d)
+					}
+				}
+				a, b := c.Argument(0), c.Argument(1)
+				switch {
+				case numLess(b, a):
+					return rt.ToValue(-1)
+				case numLess(a, b):
+					return rt.ToValue(1)
+				}
+				return rt.ToValue(0)
+			}))
+		}
+		res, err = s.call(v, "toSorted", args...)
+	case "w":
+		res, err = s.call(v, "with", s.iarg(ws[2]), s.varg(ws[3]))
+	case "t":
+		bits := ws[2]
+		detAt, dets := -1, []int(nil)
+		if ws[3] != "_" {
+			h, d := splitBang(ws[3])
+			detAt, _ = strconv.Atoi(h)
+			dets = d
+		}
+		k := 0
+		cb := rt.ToValue(func(goja.FunctionCall) goja.Value {
+			keep := k < len(bits) && bits[k] == '1'
+			if k == detAt {
+				for _, d := range dets {
+					s.detach(d)
+				}
+			}
+			k++
+			return rt.ToValue(keep)
+		})
+		res, err = s.call(v, "filter", cb)
+	case "M":
+		k := 0
+		cb := rt.ToValue(func(goja.FunctionCall) goja.Value {
+			val := s.cbValue(ws[3:], k)
+			k++
+			return val
+		})
+		s.withSpecies(v, ws[2], func() { res, err = s.call(v, "map", cb) })
+	}
+	if err != nil {
+		return s.errName(err)
+	}
+	o := res.(*goja.Object)
+	out := s.showView(o, "length")
+	s.trackResultView(o)
+	return out
+}
+
+// ofFrom: %TypedArray%.of / .from applied to a built-in constructor or to a user constructor that detaches and
+// returns an existing typed array
+func (s *state) ofFrom(ws []string) string {
+	rt := s.rt
+	mode, ctok := ws[1], ws[2]
+	var this goja.Value
+	if name, ok := kindCtor[ctok]; ok {
+		this = rt.Get(name)
+	} else {
+		h, dets := splitBang(ctok)
+		vi, _ := strconv.Atoi(h)
+		target := s.view(vi)
+		this = rt.ToValue(func(goja.ConstructorCall) *goja.Object {
+			for _, d := range dets {
+				s.detach(d)
+			}
+			return target
+		})
+	}
+	vals := make([]interface{}, 0, len(ws)-3)
+	gvals := make([]goja.Value, 0, len(ws)-3)
+	for _, t := range ws[3:] {
+		v := s.varg(t)
+		vals = append(vals, v)
+		gvals = append(gvals, v)
+	}
+	ta := rt.Get("Uint8Array").(*goja.Object).Get("__proto__") // %TypedArray%
+	if ta == nil || goja.IsUndefined(ta) {
+		ta = rt.Get("Object").(*goja.Object).Get("getPrototypeOf")
+	}
+	tao := rt.Get("Object").(*goja.Object)
+	gp, _ := goja.AssertFunction(tao.Get("getPrototypeOf"))
+	tav, _ := gp(goja.Undefined(), rt.Get("Uint8Array"))
+	taObj := tav.(*goja.Object)
+	var res goja.Value
+	var err error
+	switch mode {
+	case "of":
+		fn, _ := goja.AssertFunction(taObj.Get("of"))
+		res, err = fn(this, gvals...)
+	case "from":
+		fn, _ := goja.AssertFunction(taObj.Get("from"))
+		res, err = fn(this, rt.NewArray(vals...))
+	case "fromMap":
+		fn, _ := goja.AssertFunction(taObj.Get("from"))
+		id := rt.ToValue(func(c goja.FunctionCall) goja.Value { return c.Argument(0) })
+		res, err = fn(this, rt.NewArray(vals...), id)
+	default:
+		panic("unknown mode " + mode)
+	}
+	if err != nil {
+		return s.errName(err)
+	}
+	o := res.(*goja.Object)
+	out := s.showView(o, "length")
+	s.trackResultView(o)
+	return out
 }
 
 // other: any prototype method that does not write to its receiver; results are not compared (the model
